@@ -208,7 +208,7 @@ def gen_solve(rng):
             f = rng.choice([0.5, 0.25, 0.75, 1.0, 1.0, 1.5, 2.0, 0.125])
         else:
             f = rng.choice([rng.uniform(0.05, 1.0), rng.uniform(0.9, 1.1), 1.0, 1.0, rng.uniform(1.0, 3.0),
-                            0.4, 0.3, 1 - 5 * EPS, 1 - 20 * EPS])
+                            0.4, 0.3, 1 - 5 * EPS, 1 - 10 * EPS, 1 - 20 * EPS])
         x = rng.random()
         if x < 0.01:
             f = 0.0
@@ -617,6 +617,10 @@ def run(ck):
                    "times": r["times"], "constraints": [(k, c, e) for k, c, e in r["cons"]], "behaviour_script": r["script"],
                    "dynamic_time_step_scaling": r["dyn"]}
             report(site, True, "MTest run on the mock behaviour: " + why, rep)
+    if mts and mt_end == 0:
+        report("mt:no-run-completes", False, "none of the %d complete MTest runs on the mock behaviour completes any more "
+               "(verdicts: %s): the Newton iterations no longer reach the imposed loading" % (len(mts), {k: v for k, v in hist.items() if k.startswith("mt:")}),
+               {"request": mts[0]["line"]})
     for key, (found, what, rep) in sorted(classes.items()):
         ck.violation(key, what, rep, found)
 
